@@ -14,6 +14,7 @@
  * against a PROT_NONE page, so any read past its end faults; the fault is
  * caught and recorded with the input that caused it. */
 #define _GNU_SOURCE
+#include <fcntl.h>
 #include <setjmp.h>
 #include <signal.h>
 #include <stdint.h>
@@ -159,6 +160,11 @@ int main(int argc, char **argv) {
     unsigned long long seed = argc > 5 ? strtoull(argv[5], NULL, 10) : 1;
     xs ^= seed * 0x2545F4914F6CDD1DULL + shard;
     zck_set_log_level(ZCK_LOG_NONE);
+    if(getenv("HC_DDEBUG")) {
+        /* the most verbose log level (what the tools set with -vvvv), output discarded: message formatting must not touch the buffer either */
+        int nfd = open("/dev/null", O_WRONLY);
+        if(nfd >= 0) { zck_set_log_fd(nfd); zck_set_log_level(ZCK_LOG_DDEBUG); }
+    }
     zck = zck_create();
     pagesz = sysconf(_SC_PAGESIZE);
     page = mmap(NULL, 2 * pagesz, PROT_READ | PROT_WRITE, MAP_PRIVATE | MAP_ANONYMOUS, -1, 0);
@@ -232,6 +238,81 @@ int main(int argc, char **argv) {
                     }
                 }
             }
+    } else if(!strcmp(mode, "far")) {
+        /* the cursor convention with positions far into a (notional) huge buffer: ptr = base + cursor, *length = cursor, max_length =
+         * cursor + L.  Only the L bytes at ptr exist (flush against the guard page); results must not depend on the cursor's magnitude */
+        static const unsigned long long bases[] = {0xfffffff0ULL, 0xffffffffULL, 0x100000000ULL, 0x100000005ULL, 0x200000000ULL, 0x7fffffffffffff00ULL};
+        for(unsigned bi = 0; bi < sizeof(bases) / sizeof(bases[0]); bi++)
+            for(int L = 0; L <= 11; L++)
+                for(int rep = 0; rep < 400; rep++) {
+                    if((int)((bi * 12 + L + rep) % nsh) != shard) continue;
+                    for(int k = 0; k < L; k++) { unsigned r = rnd(); w[k] = (r % 3 == 0) ? (r >> 8) : ((r >> 8) & 0x7f); }
+                    if(L && (rnd() % 3)) w[L - 1] |= 0x80;
+                    int isint = rep & 1;
+                    char *buf = page + pagesz - L;
+                    memcpy(buf, w, L);
+                    unsigned long long ev = 0; int eused = 0;
+                    int eok = expect(w, L, isint, &ev, &eused);
+                    size_t length = bases[bi], val = 0;
+                    int ival = 0, rc = -1;
+                    n_dec++;
+                    in_call = 1;
+                    if(sigsetjmp(jb, 1) == 0) {
+                        rc = isint ? compint_to_int(zck, &ival, buf, &length, bases[bi] + L) : compint_to_size(zck, &val, buf, &length, bases[bi] + L);
+                        in_call = 0;
+                        unsigned long long got = isint ? (unsigned long long)(long long)ival : (unsigned long long)val;
+                        if(rc) {
+                            n_ok++;
+                            if(!eok) report("accepted-invalid", w, L, -1, isint, got, length);
+                            else if(got != ev) report("wrong-value", w, L, -1, isint, got, length);
+                            else if(length != bases[bi] + eused) report("wrong-consumed-length", w, L, -1, isint, got, length);
+                        } else {
+                            n_fail++;
+                            if(eok) report("rejected-valid-at-far-cursor", w, L, -1, isint, got, length);
+                        }
+                    } else {
+                        in_call = 0;
+                        n_fault++;
+                        report("read-past-end-of-buffer", w, L, -1, isint, 0, 0);
+                    }
+                    reset_err();
+                }
+        /* ... and a limit that leaves k*2^32 + r bytes of room behind the cursor (r smaller than the number): the number is complete, so it
+         * must decode, however the room is computed */
+        for(int used = 1; used <= 10; used++)
+            for(int r_ = 0; r_ < used; r_++)
+                for(int k = 1; k <= 3; k += 2)
+                    for(int rep = 0; rep < 6; rep++) {
+                        if((used + r_ + k + rep) % nsh != shard) continue;
+                        for(int q = 0; q < used; q++) w[q] = (rnd() >> 8) & 0x7f;
+                        w[used - 1] |= 0x80;
+                        if(used == 10) w[9] = 0x81;                     /* keep the value inside 64 bits */
+                        int isint = rep & 1;
+                        if(isint && used > 4) { for(int q = 4; q < used - 1; q++) w[q] = 0; w[used - 1] = 0x80; w[3] &= 0x07; }
+                        unsigned long long ev = 0; int eused = 0;
+                        int eok = expect(w, used, isint, &ev, &eused);
+                        char *buf = page + pagesz - used;
+                        memcpy(buf, w, used);
+                        size_t cursor = rep * 1000, val = 0, length = cursor;
+                        size_t limit = cursor + ((size_t)k << 32) + r_;
+                        int ival = 0, rc = -1;
+                        n_dec++;
+                        in_call = 1;
+                        if(sigsetjmp(jb, 1) == 0) {
+                            rc = isint ? compint_to_int(zck, &ival, buf, &length, limit) : compint_to_size(zck, &val, buf, &length, limit);
+                            in_call = 0;
+                            unsigned long long got = isint ? (unsigned long long)(long long)ival : (unsigned long long)val;
+                            if(rc && eok && (got != ev || length != cursor + eused)) report("wrong-value", w, used, r_, isint, got, length);
+                            else if(rc && !eok) report("accepted-invalid", w, used, r_, isint, got, length);
+                            else if(!rc && eok) report("rejected-valid-with-room-beyond-4GiB", w, used, r_, isint, got, length);
+                            if(rc) n_ok++; else n_fail++;
+                        } else {
+                            in_call = 0;
+                            n_fault++;
+                            report("read-past-end-of-buffer", w, used, r_, isint, 0, 0);
+                        }
+                        reset_err();
+                    }
     } else if(!strcmp(mode, "beyond")) {
         static const long over[] = {1, 2, 9, 10, 11, 100, 4000};
         for(int limit = 0; limit <= 12; limit++)
